@@ -56,6 +56,10 @@ v("c08-use-without-rparen", ["C08"], [(P, "\tif !p.expectPeek(token.RPAREN) { //
 v("c08-recursion-without-consuming", ["C08"], [(P, "func (p *Parser) parseGroupedExpression() ast.Expression {\n\tp.nextToken() // skip \"(\"\n", "func (p *Parser) parseGroupedExpression() ast.Expression {\n")], expect="violation", rule="R-")
 v("c08-benign-loop-reshaped", ["C08"], [(P, "\tfor !p.curTokenIs(token.EOF) {\n\t\tstmt := p.parseStatement()", "\tfor {\n\t\tif p.curTokenIs(token.EOF) {\n\t\t\tbreak\n\t\t}\n\n\t\tstmt := p.parseStatement()")], expect="silent")
 
+v("c08-nil-without-error-else-elseif", ["C08"], [(P, "\t\tp.newError(p.peekToken.ErrorLine(), fail.ErrElseifCannotFollowElse)\n\t\treturn nil", "\t\treturn nil")], rule="R-NILERR")
+v("c08-parsestr-program-with-errors", ["C08"], [("parser_utils.go", "\tif pars.HasErrors() {\n\t\treturn nil, pars.Errors()\n\t}\n\n\treturn prog, nil", "\tif prog == nil {\n\t\treturn nil, pars.Errors()\n\t}\n\n\treturn prog, nil")], rule="R-NILERR")
+v("c08-benign-nilerr-local-alt", ["C08"], [(P, "\t\tstmt.Alternative = p.parseAlternativeBlock()\n\n\t\tif stmt.Alternative == nil {\n\t\t\treturn nil\n\t\t}", "\t\talt := p.parseAlternativeBlock()\n\t\tif alt == nil {\n\t\t\treturn nil\n\t\t}\n\n\t\tstmt.Alternative = alt")], expect="silent")
+
 # ---- C09
 v("c09-dot-unchecked", ["C09"], [(E, "\tif !left.Is(object.OBJ_OBJ) {\n\t\treturn e.newError(node, fail.ErrDotOperatorNotSupported, left.Type())\n\t}\n\n", "")], rule="R-ASSERT")
 v("c09-each-unchecked", ["C09", "C03"], [(E, "\tif !arrObj.Is(object.ARR_OBJ) {\n\t\treturn e.newError(node, fail.ErrEachRequiresArray, arrObj.Type())\n\t}\n\n", "")], rule="R-ASSERT")
